@@ -560,6 +560,54 @@ class Engine:
         body = z3.Exists(bv, z3.And(dom, *conds, self.as_term(elt, st) == x))
         return self.new_cell(st, SetT(elt.ty), z3.Lambda([x], body))
 
+    def e_DictComp(self, node, st):
+        """{k(e): v(e) for e in L if c(e)} over an indexed source: a fresh dict whose domain is the image of the
+        filtered source under k and whose value at k(e) is v(e) of the LAST such e (Python's overwrite order)."""
+        if len(node.generators) != 1:
+            raise Unsupported('nested dict comprehension')
+        g = node.generators[0]
+        src = self.eval(g.iter, st)
+        if src.ty.kind == 'Optional':
+            src = self.coerce(src, src.ty.args[0], st, 'iterated value')
+        m = self.iter_model(src, st)
+        if m.setlike is not None:
+            raise Unsupported('dict comprehension over an unordered iterable')
+
+        def instance(i):
+            saved = dict(st.env)
+            try:
+                dom = z3.And(0 <= i, i < m.n)
+                st.guards.append(dom)
+                self.quant_depth = getattr(self, 'quant_depth', 0) + 1
+                try:
+                    self.bind_target(g.target, m.item(i, st), st)
+                    conds = [self.truth(self.eval(c, st), st) for c in g.ifs]
+                    for c in conds:
+                        st.guards.append(c)
+                    try:
+                        kv, vv = self.eval(node.key, st), self.eval(node.value, st)
+                    finally:
+                        for _ in conds:
+                            st.guards.pop()
+                finally:
+                    st.guards.pop()
+                    self.quant_depth -= 1
+            finally:
+                st.env = saved
+            return z3.And(dom, *conds), kv, vv
+        i, j = z3.Int(fresh_name('di')), z3.Int(fresh_name('dj'))
+        ci, ki, vi = instance(i)
+        cj, kj, _ = instance(j)
+        dt = Ty('Dict', (ki.ty, vi.ty))
+        d = z3.Const(fresh_name('dictcomp'), sort_of(dt))
+        dom_d, val_d = T.dict_dom(dt, d), T.dict_val(dt, d)
+        kti, ktj, vti = self.as_term(ki, st), self.as_term(kj, st), self.as_term(vi, st)
+        x = z3.Const(fresh_name('dk'), sort_of(ki.ty))
+        st.pc.append(z3.ForAll([x], T.Sel(dom_d, x) == z3.Exists([i], z3.And(ci, kti == x))))
+        st.pc.append(z3.ForAll([i], z3.Implies(z3.And(ci, z3.ForAll([j], z3.Implies(z3.And(j > i, cj), ktj != kti))),
+                                               T.Sel(val_d, kti) == vti)))
+        return self.new_cell(st, dt, d)
+
     def e_JoinedStr(self, node, st):
         return V(STR, fresh(STR, 'fstr'))
 
@@ -678,6 +726,31 @@ class Engine:
             return self.np_binop(op, a, b, st)
         if ka == 'Set' and kb == 'Set':
             ta, tb = self.load(a, st), self.load(b, st)
+            ea, eb = a.ty.args[0], b.ty.args[0]
+            if ea != eb and (Opt(ea) == eb or ea == Opt(eb)):
+                # Set[T] with Set[Optional[T]]: membership of a plain element in the optional-typed set goes through
+                # Some(x); an intersection holds plain elements only
+                plain, opt = (ea, eb) if Opt(ea) == eb else (eb, ea)
+
+                def mem(term, ety, xt, xty):
+                    if ety == xty:
+                        return T.Sel(term, xt)
+                    if ety == opt:       # x plain, set optional
+                        return T.Sel(term, T.opt_some(opt, xt))
+                    return z3.And(z3.Not(T.opt_is_none(opt, xt)), T.Sel(term, T.opt_val(opt, xt)))
+                if isinstance(op, ast.BitAnd):
+                    rty = plain
+                elif isinstance(op, ast.Sub):
+                    rty = ea
+                elif isinstance(op, ast.BitOr):
+                    rty = opt
+                else:
+                    raise Unsupported('set op')
+                x = z3.Const(fresh_name('e'), sort_of(rty))
+                ma, mb = mem(ta, ea, x, rty), mem(tb, eb, x, rty)
+                body = z3.Or(ma, mb) if isinstance(op, ast.BitOr) else z3.And(ma, mb) if isinstance(op, ast.BitAnd) \
+                    else z3.And(ma, z3.Not(mb))
+                return self.new_cell(st, SetT(rty), self.def_set(SetT(rty), x, body, st))
             x = z3.Const(fresh_name('e'), sort_of(a.ty.args[0]))
             if isinstance(op, ast.BitOr):
                 body = z3.Or(T.Sel(ta, x), T.Sel(tb, x))
